@@ -110,6 +110,15 @@ func (r *RibEntry) pruneIfEmpty() {
 }
 
 func (r *RibEntry) updateNexthopsEnc() {
+	// Filler nodes that only connect longer prefixes have no name and no FIB entry
+	// of their own (a nil name would address the root FIB entry); only recurse.
+	if r.Name == nil {
+		for child := range r.children {
+			child.updateNexthopsEnc()
+		}
+		return
+	}
+
 	FibStrategyTable.ClearNextHopsEnc(r.Name)
 
 	// All routes including parents if needed
